@@ -118,3 +118,87 @@ Proof. vm_compute. repeat split; reflexivity. Qed.
 Example ex_treeset_abs :
   values_of (cfg TreeSet CAbs) (run (cfg TreeSet CAbs) [Add [-3; 1; 3; -1; 2]; RemoveVals [-2]; Add [-5; 5; -5]]) = [-1; 3; -5].
 Proof. vm_compute. reflexivity. Qed.
+
+(* ---------- rebuilding a set from its own Values() ----------
+   Model side of the "variadic constructor" conjunct of harness sane bit 7: the harness checks after
+   every operation that New(set.Values()...) — in the Go code "construct empty, then one
+   Add(values...) call", at machine level the one-operation history [Add vs] — has the same observation
+   vector (size, empty, values, contains) as the set itself, the TreeSet's exact tree shape exempt.
+
+   HashSet and LinkedHashSet: for EVERY history the rebuilt machine state is not a panic and IS the
+   state of the original (table and ordering list), so every observer agrees.
+
+   TreeSet: for EVERY history and every comparator of the family the rebuilt state is not a panic,
+   satisfies the set invariant (red-black, search-ordered, cached size = node count), and has the same
+   Values() — the same representative of every comparator class, ascending —, the same Size(), the same
+   answer to every Contains probe, and the same observation vector once the TShape entry is dropped.
+   The tree itself is not reproduced in general: [C04_rebuild_treeset_state_refuted]. *)
+From Gods Require Import Proofs.RebuildProofs.
+
+Theorem C04_rebuild_from_values : forall c ops, ckind c = HashSet \/ ckind c = LinkedHashSet ->
+  let s := run c ops in
+  let r := run c [Add (values_of c s)] in
+  r <> StCrash /\ r = s /\ forall lvl, observe c lvl r = observe c lvl s.
+Proof. exact rebuild_hash_full. Qed.
+Print Assumptions C04_rebuild_from_values.
+
+Theorem C04_rebuild_from_values_treeset : forall c ops, ckind c = TreeSet ->
+  let s := run c ops in
+  let r := run c [Add (values_of c s)] in
+  r <> StCrash /\ set_inv c r /\
+  values_of c r = values_of c s /\
+  size_of c r = size_of c s /\
+  (forall x, member c r x = member c s x) /\
+  (forall vs, contains_of c r vs = contains_of c s vs) /\
+  (forall lvl, drop_shape (observe c lvl r) = drop_shape (observe c lvl s)).
+Proof. exact rebuild_treeset. Qed.
+Print Assumptions C04_rebuild_from_values_treeset.
+
+(* full state equality (and equality of the whole observation vector) is false for the TreeSet *)
+Theorem C04_rebuild_treeset_state_refuted : exists c ops, ckind c = TreeSet /\
+  run c [Add (values_of c (run c ops))] <> run c ops /\
+  observe c 1 (run c [Add (values_of c (run c ops))]) <> observe c 1 (run c ops).
+Proof. exact rebuild_treeset_state_refuted. Qed.
+Print Assumptions C04_rebuild_treeset_state_refuted.
+
+(* all six kinds with a variadic constructor in one statement *)
+Theorem C04_rebuild_from_values_all : forall c ops, has_variadic_ctor (ckind c) = true ->
+  let s := run c ops in
+  let r := run c [Add (values_of c s)] in
+  s <> StCrash /\ r <> StCrash /\
+  values_of c r = values_of c s /\
+  size_of c r = size_of c s /\
+  (forall vs, contains_of c r vs = contains_of c s vs) /\
+  (forall lvl, drop_shape (observe c lvl r) = drop_shape (observe c lvl s)) /\
+  (ckind c <> TreeSet -> r = s /\ forall lvl, observe c lvl r = observe c lvl s).
+Proof. exact rebuild_from_values. Qed.
+Print Assumptions C04_rebuild_from_values_all.
+
+(* duplicates in the history; insertion order of the linked set survives the rebuild *)
+Example ex_rebuild_hash :
+  run (cfg HashSet CNat) [Add (values_of (cfg HashSet CNat) (run (cfg HashSet CNat) h1))] = StHSet [1; 2; 9] /\
+  run (cfg HashSet CNat) h1 = StHSet [1; 2; 9] /\
+  run (cfg LinkedHashSet CNat) [Add (values_of (cfg LinkedHashSet CNat) (run (cfg LinkedHashSet CNat) h1))] = StLSet [1; 2; 9] [2; 1; 9] /\
+  run (cfg LinkedHashSet CNat) h1 = StLSet [1; 2; 9] [2; 1; 9].
+Proof. vm_compute. repeat split; reflexivity. Qed.
+
+(* many-to-one comparator |x|: one representative per class; re-adding the representatives gives
+   exactly them back, in a different tree *)
+Example ex_rebuild_treeset_abs :
+  let c := cfg TreeSet CAbs in
+  let s := run c [Add [-3; 1; 3; -1; 2]; RemoveVals [-2]; Add [-5; 5; -5; 7; -8; 4]] in
+  let r := run c [Add (values_of c s)] in
+  values_of c s = [-1; 3; 4; -5; 7; -8] /\ values_of c r = [-1; 3; 4; -5; 7; -8] /\
+  size_of c s = 6 /\ size_of c r = 6 /\
+  map (contains_of c r) [[1]; [-3; 8]; [2]; [5; 6]] = map (contains_of c s) [[1]; [-3; 8]; [2]; [5; 6]] /\
+  map (contains_of c s) [[1]; [-3; 8]; [2]; [5; 6]] = [obool true; obool true; obool false; obool false] /\
+  r <> s /\ drop_shape (observe c 1 r) = drop_shape (observe c 1 s).
+Proof. vm_compute. repeat split; try reflexivity. discriminate. Qed.
+
+Example ex_rebuild_treeset_div3 :
+  let c := cfg TreeSet CDiv3 in
+  let s := run c [Add [3; 4; 0]; Add [5; 10]; RemoveVals [2]; Add [11; 7]; FromJSON (DArr [6; 8; 1; 2]); Add [7; -4; 13; 12]] in
+  let r := run c [Add (values_of c s)] in
+  values_of c s = [-4; 2; 7; 12] /\ values_of c r = [-4; 2; 7; 12] /\ size_of c r = 4 /\
+  contains_of c r [-5; 0; 8; 14] = obool true /\ contains_of c r [3] = obool false.
+Proof. vm_compute. repeat split; reflexivity. Qed.
